@@ -229,6 +229,7 @@ def evaluate(wname, opt, times, layouts):
             divs = [d_ for d_ in t["divs"] if d_["ps"] or d_["lang"] == "en-US"]  # a div without cues (language without captions) is not a cue
             if len(divs) != 1:
                 err = f"{len(divs)} divs"
+                parsed = [(p["start"], p["end"]) for d_ in divs for p in d_["ps"]]
             else:
                 parsed = [(p["start"], p["end"]) for p in divs[0]["ps"]]
                 if wname == "DFXPWriter":
